@@ -8,7 +8,7 @@ man = {
     "setup_cmd": "./check --build",
     "hooks": {
         "guard": "verifsim-overlay",
-        "enable": "no source of /repo is edited: every check runs tools/instrument on /repo's working tree and compiles the result with `go1.26.8 test -c -overlay <scratch>/overlay.json` (rewritten copies of the simulated packages + the virtual packages verifsim/{rt,simsync,simrand}); without the overlay the tree is byte-identical to what the baseline compiles",
+        "enable": "no source of /repo is edited: every check runs tools/instrument on /repo's working tree and compiles the result with `go1.26.8 test -c -overlay <scratch>/overlay.json` (rewritten copies of the simulated packages + the virtual packages verifsim/{rt,simsync,simrand,hsync,vfmt,lndhook} + overlay-only constructor files injected into clightning, wallet and lwk from /verif/sim/inject); the glightning dependency is used as a patched copy (three transport hooks) through a `replace` in the generated harness go.mod; without the overlay the tree is byte-identical to what the baseline compiles",
         "baseline_off_cmd": "cd /repo && go test -mod=mod -vet=off -count=1 -timeout 25m ./...",
         "source_commits": [],
         "add_only": True,
